@@ -510,3 +510,63 @@ Proof.
       discriminate.
   - contradiction NP. reflexivity.
 Qed.
+
+(* ------------------------------------------------------------------ the latest quotes, explicitly *)
+(* the quote standing at the place of x after the update list u: the LAST element of u with x's pair, else x *)
+Definition upd_by (p : fxpair) (u : list quoteR) (init : quoteR) : quoteR :=
+  fold_left (fun acc y => if pair_eqb (pair y) p then y else acc) u init.
+Definition upd_quote (u : list quoteR) (x : quoteR) : quoteR := upd_by (pair x) u x.
+
+Lemma nth_map_d {X Y} (g : X -> Y) l k d d' : (k < length l)%nat -> nth k (map g l) d' = g (nth k l d).
+Proof. intros Hk. rewrite (nth_indep _ d' (g d)) by (rewrite map_length; exact Hk). apply map_nth. Qed.
+
+Lemma NoDup_pairs_idx (l : list quoteR) d i k : NoDup (map pair l) -> (i < length l)%nat -> (k < length l)%nat ->
+  pair (nth i l d) = pair (nth k l d) -> i = k.
+Proof.
+  intros ND Hi Hk E. rewrite NoDup_nth with (d := pair d) in ND. apply ND.
+  - rewrite map_length; exact Hi.
+  - rewrite map_length; exact Hk.
+  - rewrite !map_nth. exact E.
+Qed.
+
+Lemma replace_quotes_latest (u : list quoteR) : forall cur, NoDup (map pair cur) -> pairs_known cur u ->
+  replace_quotes cur u = Ok (map (upd_quote u) cur).
+Proof.
+  induction u as [|y r IH]; intros cur ND PK.
+  - cbn. f_equal. symmetry. apply map_id.
+  - cbn [replace_quotes].
+    destruct (last_match_idx_spec (pair y) y cur (PK y (or_introl eq_refl))) as [B Pn].
+    set (i := last_match_idx (pair y) cur) in *.
+    apply Nat.ltb_lt in B. rewrite B. apply Nat.ltb_lt in B.
+    pose proof (map_pair_lset cur i y y B Pn) as MP.
+    rewrite IH.
+    + f_equal. apply (list_ext_nth y); [rewrite !map_length, lset_length; reflexivity|].
+      intros k Hk. rewrite map_length, lset_length in Hk.
+      rewrite (nth_map_d _ _ _ y) by (rewrite lset_length; exact Hk).
+      rewrite (nth_map_d _ _ _ y) by exact Hk.
+      rewrite nth_lset. unfold upd_quote, upd_by. cbn [fold_left].
+      destruct (Nat.eqb i k && Nat.ltb i (length cur))%bool eqn:EK.
+      * apply andb_true_iff in EK. destruct EK as [EK _]. apply Nat.eqb_eq in EK. subst k.
+        rewrite Pn. rewrite (proj2 (pair_eqb_eq _ _) eq_refl). reflexivity.
+      * assert (NK : i <> k).
+        { intros ->. rewrite Nat.eqb_refl in EK. apply Nat.ltb_lt in B. rewrite B in EK. discriminate. }
+        assert (NP : pair_eqb (pair y) (pair (nth k cur y)) = false).
+        { destruct (pair_eqb (pair y) (pair (nth k cur y))) eqn:PE; [|reflexivity].
+          apply pair_eqb_eq in PE. exfalso. apply NK.
+          apply (NoDup_pairs_idx cur y i k ND B Hk). congruence. }
+        rewrite NP. reflexivity.
+    + rewrite MP. exact ND.
+    + intros z Iz. destruct (PK z (or_intror Iz)) as (x & Ix & Ex).
+      assert (Im : In (pair z) (map pair (lset cur i y))).
+      { rewrite MP. rewrite <- Ex. apply in_map. exact Ix. }
+      apply in_map_iff in Im. destruct Im as (x' & Ex' & Ix'). exists x'. auto.
+Qed.
+
+(* an accepted update puts, at the place of every quote, the last submitted quote with its pair *)
+Theorem update_latest cs0 s u : hist_ok cs0 s -> pairs_known (fx_rates s) u ->
+  fx_update s u = fx_try_new (map (upd_quote u) (fx_rates s)) (Some (hd [] (currencies s))).
+Proof.
+  intros (IV & TQ & _ & _) PK. unfold fx_update. rewrite (proj2 (validated_iff _ _) PK). cbn [negb].
+  rewrite (replace_quotes_latest u (fx_rates s) (tree_pairs_NoDup _ _ TQ) PK). cbn [obind].
+  pose proof (inv_currencies_nonempty s IV) as NE. destruct (currencies s); [contradiction|reflexivity].
+Qed.
